@@ -242,6 +242,108 @@ def _conv_chunk(args):
     return n, fails
 
 
+_QUERIES = ("tin", "tout", "fee", "validate")
+
+
+def _session_exec(ses, world, act, mult):
+    """perform one action of TxSession on the object"""
+    k = act[0]
+    sc = lambda lst: [(a * mult, x) for a, x in lst]
+    dbe = lambda name: [dict(e, outs=sc(e["outs"])) for e in world["dbs"][name]]
+    if k == "tin":
+        return ses.total_in()
+    if k == "tout":
+        return ses.total_out()
+    if k == "fee":
+        return ses.fee()
+    if k == "validate":
+        return ses.validate(dbe(act[1]))
+    if k == "set":
+        return ses.set_unspents(sc(world["lists"][act[1] - 1]))
+    if k == "assign":
+        return ses.assign(sc(world["lists"][act[1] - 1]))
+    if k == "fromdb":
+        return ses.from_db(dbe(act[1]))
+    if k == "append":
+        t, a = world["pays"][act[1] - 1]
+        return ses.append_out(t, a * mult)
+    if k == "replace":
+        t, a = world["pays"][act[2] - 1]
+        return ses.replace_out(act[1], t, a * mult)
+    raise MachineryError("unknown session action %r" % (act,))
+
+
+def _scale_r(r, mult):
+    return ["val", r[1] * mult] if r[0] == "val" else list(r)
+
+
+def _session_chunk(args):
+    world, recs = args
+    drv = _drv()
+    fails = []
+    n = 0
+    for rec in recs:
+        h = hashlib.blake2b(json.dumps(rec["acts"]).encode(), digest_size=2).digest()
+        mult = (1, 10 ** 8, 3 * 10 ** 14)[h[0] % 3]
+        sc = lambda lst: [(a * mult, x) for a, x in lst]
+        truth = {s: sc(o) for s, o in enumerate(world["truth"], 1)}
+        if "_got" in rec:
+            ses = None
+        else:
+            ses = drv.Session(world["ins"], truth, sc(world["un0"]), [(t, a * mult) for t, a in world["outs0"]], style=h[1])
+        last_writer = "new"
+        for j, (act, ob) in enumerate(zip(rec["acts"], rec["obs"])):
+            want = _scale_r(ob["r"], mult)
+            w_un = [[a * mult, x] for a, x in ob["un"]]
+            w_outs = [[t, a * mult] for t, a in ob["outs"]]
+            if ses is None:        # binding self-test: canned observations
+                got, fields = rec["_got"][j], (w_un, w_outs)
+            else:
+                got = _session_exec(ses, world, act, mult)
+                fields = ses.fields()
+            n += 1
+            sess = "session %s x%d, action %d %s" % (rec["acts"], mult, j + 1, act)
+            if got[:1] == ["raise"]:
+                ok = want == ["raise"]
+            else:
+                ok = got == want
+            if not ok:
+                if act[0] in _QUERIES:
+                    # the same question to a fresh object with the same current fields
+                    fr = None
+                    if ses is not None:
+                        f = ses.fresh([tuple(u) for u in w_un], [tuple(o) for o in w_outs])
+                        fr = _session_exec(f, world, act, mult)
+                    kind = "history-dependent" if fr is not None and (fr == want or (fr[:1] == ["raise"] and want == ["raise"])) else "value"
+                    fails.append(("C13|session|%s|%s|after=%s" % (act[0], kind, last_writer),
+                                  "%s: answered %s, the current fields (unspents %s, outputs %s) demand %s; a fresh object with "
+                                  "these fields answers %s" % (sess, got, w_un, w_outs, want, fr), {"rec": rec, "step": j, "got": got}))
+                else:
+                    fails.append(("C13|session|%s|expected=%s|got=%s" % (act[0], want[0], got[0]),
+                                  "%s: %s, expected %s" % (sess, got, want), {"rec": rec, "step": j, "got": got}))
+                break
+            if [list(x) if x is not None else None for x in fields[0]] != w_un or [list(x) for x in fields[1]] != w_outs:
+                fails.append(("C13|session|%s|fields" % act[0],
+                              "%s: the object now holds unspents %s outputs %s, expected %s %s" % (sess, fields[0], fields[1], w_un, w_outs),
+                              {"rec": rec, "step": j, "fields": fields}))
+                break
+            if act[0] not in _QUERIES and got == ["ok"]:
+                last_writer = act[0]
+        else:
+            if ses is not None:
+                # end of session: the long-lived object and a fresh one built from the final fields agree on all totals
+                ob = rec["obs"][-1]
+                f = ses.fresh([(a * mult, x) for a, x in ob["un"]], [(t, a * mult) for t, a in ob["outs"]])
+                mine = (ses.total_in(), ses.total_out(), ses.fee())
+                theirs = (f.total_in(), f.total_out(), f.fee())
+                n += 1
+                if mine != theirs:
+                    fails.append(("C13|session|final-totals|history-dependent|after=%s" % last_writer,
+                                  "session %s x%d: total_in/total_out/fee %s, a fresh object with the same fields gives %s" % (
+                                      rec["acts"], mult, mine, theirs), {"rec": rec, "mine": mine, "fresh": theirs}))
+    return n, fails
+
+
 class Stream:
     """feeds TLC's records to worker processes in chunks"""
 
@@ -386,7 +488,7 @@ def _trace_scenario(rnd):
             e["ins"] = [[0, 0]] * len(p["ins"])
     ev.append(e)
     if tx is not None:
-        for dbkind in rnd.sample(["honest", "missing", "wrongtx", "honest"], rnd.randint(1, 2)):
+        def mkdb(dbkind):
             entries = []
             db = {}
             victim = told[rnd.randrange(nin)][0]
@@ -397,20 +499,87 @@ def _trace_scenario(rnd):
                 if dbkind == "wrongtx" and s == victim:
                     # another transaction filed under this id; its outputs are what the spender believes
                     outs = list(truth[s])
-                    other = drv.source_tx(s, outs, salt=77)
-                    db[hash_of[s]] = other
+                    db[hash_of[s]] = drv.source_tx(s, outs, salt=77)
                     entries.append({"st": "tx", "id": nsrc + 1, "outs": [[L(a), sc] for a, sc in outs]})
                     continue
                 db[hash_of[s]] = src_tx[s]
                 entries.append({"st": "tx", "id": s, "outs": [[L(a), sc] for a, sc in truth[s]]})
+            return entries, db
+
+        def do_validate(dbkind):
+            entries, db = mkdb(dbkind)
             un = [[L(u.coin_value), drv.SCR_OF.get(u.script, 0)] for u in tx.unspents]
             try:
                 r = tx.validate_unspents(db)
-                ve = {"k": "validate", "unsp": un, "db": entries, "ret": True,
-                      "fsign": (r > 0) - (r < 0), "fmag": L(abs(r))}
+                return {"k": "validate", "unsp": un, "db": entries, "ret": True, "fsign": (r > 0) - (r < 0), "fmag": L(abs(r))}
             except Exception:
-                ve = {"k": "validate", "unsp": un, "db": entries, "ret": False, "fsign": 0, "fmag": []}
-            ev.append(ve)
+                return {"k": "validate", "unsp": un, "db": entries, "ret": False, "fsign": 0, "fmag": []}
+
+        for dbkind in rnd.sample(["honest", "missing", "wrongtx", "honest"], rnd.randint(1, 2)):
+            ev.append(do_validate(dbkind))
+        # a session on the same object: edits and questions in random order (TxSession.tla)
+        for _ in range(rnd.choice([0, 3, 4, 5, 6, 8, 10])):
+            c = rnd.random()
+            if c < 0.14:
+                ev.append({"k": "tin", "v": L(tx.total_in())})
+            elif c < 0.22:
+                ev.append({"k": "tout", "v": L(tx.total_out())})
+            elif c < 0.40:
+                f = tx.fee()
+                ev.append({"k": "fee", "fsign": (f > 0) - (f < 0), "fmag": L(abs(f))})
+            elif c < 0.50:
+                ev.append(do_validate(rnd.choice(["honest", "honest", "missing", "wrongtx"])))
+            elif c < 0.74:
+                kind = "set" if c < 0.62 else "assign"
+                lst = [[u.coin_value, drv.SCR_OF.get(u.script, 1)] for u in tx.unspents]
+                m = rnd.random()
+                jj = rnd.randrange(len(lst))
+                if m < 0.3:
+                    lst = [[truth[s][k][0], truth[s][k][1]] if k < len(truth[s]) else lst[n] for n, (s, k) in enumerate((t[0], t[1]) for t in told)]
+                elif m < 0.6:
+                    lst[jj][0] = _rand_amount(rnd)
+                elif m < 0.8:
+                    lst[jj][0] = max(1, lst[jj][0] + rnd.choice([-1, 1]))
+                else:
+                    lst[jj][1] = lst[jj][1] % 4 + 1
+                if kind == "set" and rnd.random() < 0.2:
+                    lst = lst[:-1] if rnd.random() < 0.5 else lst + [[_rand_amount(rnd), 1]]
+                objs = []
+                for n, (a, sc) in enumerate(lst):
+                    if rnd.random() < 0.5 and n < nin:
+                        objs.append(drv.Spendable(a, drv.SCR[sc], hash_of[told[n][0]], told[n][1]))
+                    else:
+                        objs.append(drv.TxOut(a, drv.SCR[sc]))
+                ok = True
+                if kind == "set":
+                    try:
+                        tx.set_unspents(objs)
+                    except Exception:
+                        ok = False
+                else:
+                    tx.unspents = objs
+                ev.append({"k": kind, "un": [[L(a), sc] for a, sc in lst], "ok": ok})
+            elif c < 0.84:
+                entries, db = mkdb(rnd.choice(["honest", "honest", "missing", "wrongtx"]))
+                ok = True
+                try:
+                    tx.unspents_from_db(db)
+                except Exception:
+                    ok = False
+                ev.append({"k": "fromdb", "db": entries, "ok": ok})
+            elif c < 0.92:
+                t, a = rnd.randint(1, 8), _rand_amount(rnd)
+                tx.txs_out.append(drv.TxOut(a, drv.ADDR_SCRIPT[t]))
+                ev.append({"k": "append", "out": [t, L(a)]})
+            else:
+                i = rnd.randint(1, len(tx.txs_out))
+                t, a = rnd.randint(1, 8), _rand_amount(rnd)
+                if rnd.random() < 0.5:
+                    tx.txs_out[i - 1] = drv.TxOut(a, drv.ADDR_SCRIPT[t])
+                else:
+                    tx.txs_out[i - 1].coin_value = a
+                    tx.txs_out[i - 1].script = drv.ADDR_SCRIPT[t]
+                ev.append({"k": "replace", "i": i, "out": [t, L(a)]})
     for _ in range(rnd.randint(1, 3)):
         D = rnd.choice([8, 5])
         n = _rand_amount(rnd) if rnd.random() < 0.9 else 0
@@ -488,7 +657,17 @@ def _canned_trace():
           "ret": False, "fsign": 0, "fmag": []}
     c1 = {"k": "conv", "dir": "s2c", "D": 8, "sat": list(str(a1)), "coin": list("20999999.99999999")}
     c2 = {"k": "conv", "dir": "c2s", "D": 5, "sat": list("10003"), "coin": list("0.10003")}
-    return {"ev": [build, v1, v2, c1, c2], "meta": {"lie": "canned"}}
+    # a session on the same object: ask, replace the unspents past the checked setter, ask again ...
+    ses = [{"k": "tin", "v": L(tin)},
+           {"k": "assign", "un": [[L(a1 - 5), 1], [L(a2), 2]], "ok": True},
+           {"k": "fee", "fsign": 1, "fmag": L(fee - 5)},
+           {"k": "fromdb", "db": db, "ok": True},
+           {"k": "tin", "v": L(tin)},
+           {"k": "append", "out": [5, L(7)]},
+           {"k": "tout", "v": L(tin - fee + 7)},
+           {"k": "set", "un": [[L(1), 1]], "ok": False},
+           {"k": "fee", "fsign": 1, "fmag": L(fee - 7)}]
+    return {"ev": [build, v1, v2, c1, c2] + ses, "meta": {"lie": "canned"}}
 
 
 # ------------------------------------------------------------------ run
@@ -526,6 +705,10 @@ def run(ctx):
         ctx.tlc("MC_Unspents", "MC_Unspents_q" if q else "MC_Unspents_t", workers=w, coverage=not q, timeout=2400,
                 require_actions=() if q else ("MPick", "MExamine", "MReturn"))
         ctx.tlc("MC_CoinDecimal", "MC_CoinDecimal_q" if q else "MC_CoinDecimal_t", workers=4 if q else w, timeout=2400)
+        ctx.tlc("TxSession", "MC_TxSession_none", workers=4)
+        ctx.tlc("TxSession", "MC_TxSession_all_writers", workers=4)
+        r = ctx.tlc("TxSession", "MC_TxSession_set_only", expect_ok=False, count=False, workers=2)
+        ctx.selftest("model_rejects_stale_memo", (not r.ok) and r.violated == "HistoryIndependent")
         # teeth of the model: each wrong closed form must violate the rule book
         for v in ("late", "offbyone", "zero", "nofee"):
             r = ctx.tlc("TxBuild", "MC_TxBuild_mut_" + v, expect_ok=False, count=False, workers=2)
@@ -623,6 +806,9 @@ def run(ctx):
         ctx.selftest("validate_replay_rejects_corrupted_verdict",
                      not g0 and len(g1) == 1 and len(g2) == 1 and len(g3) == 1 and not g4)
 
+    if stage("session"):
+        _session_stage(ctx, q)
+
     if stage("conv"):
         st = Stream(_conv_chunk, wrap=lambda c: (c, True), chunk=200)
         ckeys = set()
@@ -669,14 +855,28 @@ def run(ctx):
         with mp.get_context("fork").Pool(min(NPROC, len(jobs))) as pool:
             chunks = pool.map(_record_chunk, jobs)
         traces = [t for c in chunks for t in c]
-        stats = {"built": 0, "error": 0, "validate_ret": 0, "validate_raise": 0, "conv": 0}
+        stats = {"built": 0, "error": 0, "validate_ret": 0, "validate_raise": 0, "conv": 0, "query": 0,
+                 "writer_ok": 0, "writer_raise": 0, "query_after_unchecked_writer": 0}
         for t in traces:
             stats["error" if t["ev"][0]["err"] else "built"] += 1
+            asked = False
+            stale = False
             for e in t["ev"][1:]:
                 if e["k"] == "validate":
                     stats["validate_ret" if e["ret"] else "validate_raise"] += 1
-                else:
+                elif e["k"] == "conv":
                     stats["conv"] += 1
+                elif e["k"] in ("tin", "tout", "fee"):
+                    stats["query"] += 1
+                    if stale and e["k"] != "tout":
+                        stats["query_after_unchecked_writer"] += 1
+                    asked = True
+                elif e["k"] in ("append", "replace") or e["ok"]:
+                    stats["writer_ok"] += 1
+                    if asked and e["k"] in ("assign", "fromdb"):
+                        stale = True
+                else:
+                    stats["writer_raise"] += 1
         ctx.extra["trace_events"] = stats
         if min(stats.values()) == 0:
             raise MachineryError("trace recorder produced no event of some kind: %s" % stats)
@@ -720,9 +920,62 @@ def run(ctx):
         b8["ev"][0]["ins"] = b8["ev"][0]["ins"][::-1]
         b9 = copy.deepcopy(g)        # error although the funds suffice
         b9["ev"] = [dict(g["ev"][0], err=True, ins=[], unsp=[], outs=[], tin=[], tout=[], fsign=0, fmag=[])]
-        rej = validate_traces(ctx, [g, b1, b2, b3, b4, b5, b6, b7, b8, b9])
-        ctx.selftest("trace_rejects_corrupted_field", rej == list(range(1, 10)))
+        b10 = copy.deepcopy(g)       # stale fee: the answer of before the direct assignment of tx.unspents
+        b10["ev"][7]["fmag"] = g["ev"][0]["fmag"]
+        b11 = copy.deepcopy(g)       # stale total_in after unspents_from_db
+        b11["ev"][9]["v"] = L(val(g["ev"][5]["v"]) - 5)
+        b12 = copy.deepcopy(g)       # stale total_out after an output was appended
+        b12["ev"][11]["v"] = g["ev"][0]["tout"]
+        b13 = copy.deepcopy(g)       # the checked setter "accepted" a list of the wrong length
+        b13["ev"][12]["ok"] = True
+        b14 = copy.deepcopy(g)       # unspents_from_db "raised" although the database holds every source
+        b14["ev"][8]["ok"] = False
+        rej = validate_traces(ctx, [g, b1, b2, b3, b4, b5, b6, b7, b8, b9, b10, b11, b12, b13, b14])
+        ctx.selftest("trace_rejects_corrupted_field", rej == list(range(1, 15)))
     ctx.exhaustive = True
+
+
+# ------------------------------------------------------------------ sessions (history)
+
+def _session_stage(ctx, q):
+    cfg = "MC_TxSessionReplay_q" if q else "MC_TxSessionReplay_t"
+    r = ctx.tlc("MC_TxSessionReplay", cfg, workers=16, timeout=2400)
+    worlds = [x for x in r.records if isinstance(x, dict) and x.get("k") == "world"]
+    recs = [x for x in r.records if isinstance(x, dict) and x.get("k") == "session"]
+    if len(worlds) != 1 or not recs:
+        raise MachineryError("session export: %d world records, %d sessions" % (len(worlds), len(recs)))
+    world = worlds[0]
+    st = Stream(_session_chunk, wrap=lambda c: (world, c), chunk=500)
+    shapes = set()
+    for i, rec in enumerate(recs):
+        shapes.add(tuple(a[0] for a in rec["acts"]))
+        if i % 50021 == 17:
+            ctx.sample({"session": rec})
+        st.feed(rec)
+    n = nf = 0
+    for k, fails in st.finish():
+        n += k
+        nf += len(fails)
+        _report(ctx, fails)
+    ctx.log("replayed %d sessions of %s on one Tx object each (%d actions compared): %d disagree" % (len(recs), cfg, n, nf))
+    ctx.replayed += len(recs)
+    ctx.case(None, n)
+    ctx.action("replay." + cfg, len(recs))
+    for sh in shapes:
+        ctx.case(("session",) + sh, 0)
+    # binding self-test (independent of pycoin): canned answers against the exported expectation
+    rec = {"acts": [["tin"], ["assign", 2], ["fee"]],
+           "obs": [{"r": ["val", 8], "un": [[5, 1], [3, 1]], "outs": [[1, 2], [2, 1]]},
+                   {"r": ["ok"], "un": [[7, 1], [3, 1]], "outs": [[1, 2], [2, 1]]},
+                   {"r": ["val", 7], "un": [[7, 1], [3, 1]], "outs": [[1, 2], [2, 1]]}]}
+    m = (1, 10 ** 8, 3 * 10 ** 14)[hashlib.blake2b(json.dumps(rec["acts"]).encode(), digest_size=2).digest()[0] % 3]
+    good = [["val", 8 * m], ["ok"], ["val", 7 * m]]
+    s0 = _session_chunk((world, [dict(rec, _got=good)]))[1]
+    s1 = _session_chunk((world, [dict(rec, _got=[good[0], good[1], ["val", 5 * m]])]))[1]     # the stale answer
+    s2 = _session_chunk((world, [dict(rec, _got=[good[0], ["raise", "X"], good[2]])]))[1]
+    s3 = _session_chunk((world, [dict(rec, _got=[["val", 8 * m + 1], good[1], good[2]])]))[1]
+    ctx.selftest("session_replay_rejects_stale_answer", not s0 and len(s1) == 1 and "|fee|" in s1[0][0]
+                 and len(s2) == 1 and len(s3) == 1)
 
 
 # ------------------------------------------------------------------ Apalache (optional, not relied on)
